@@ -210,13 +210,15 @@ def composition_clause(model, rep, funcs):
     f = funcs.get(PC + "ImageConverter.with_scale")
     if f is not None:
         rep.instance("COMP", f.loc())
-        ok = "return self(img, scale)" in norm_src(f.node)
+        inner = [n_ for n_ in ast.walk(f.node) if isinstance(n_, (ast.FunctionDef, ast.Lambda)) and n_ is not f.node]
+        ok = any((Matcher(n_).has("return self($x, scale)") if isinstance(n_, ast.FunctionDef) else norm_src(n_.body) == f"self({n_.args.args[0].arg}, scale)")
+                 for n_ in inner if len(n_.args.args) == 1)
         rep.ob("COMP", f.anchor, "with_scale(scale)(img) == converter(img, scale)", ok, "", node=f.node, fn=f, clause="2 composition", stmt="def with_scale")
     for a, want in ((PC + "ImageProvider.provide", "self._func(scale)"), (PC + "ImageConverter.convert", "self._func(image, scale)")):
         f = funcs.get(a)
         if f is not None:
             rep.instance("COMP", f.loc())
-            rep.ob("COMP", a, f"calling the pipeline calls the wrapped function as {want}", want in norm_src(f.node), "", node=f.node, fn=f, clause="2 composition",
+            rep.ob("COMP", a, f"calling the pipeline calls the wrapped function as {want}", Matcher(f).has(want), "", node=f.node, fn=f, clause="2 composition",
                    stmt=f"{a} call")
 
 
